@@ -177,6 +177,8 @@ class Tdf:
         self.signature = self.handler.read(len(self.SIGNATURE))
 
         if self.signature != self.SIGNATURE:
+            # a refused open must not leave the object inside a context
+            self.__exit__(None, None, None)
             raise Exception("Invalid TDF file")
 
         self.version = u32.bread(self.handler)
